@@ -56,6 +56,8 @@ def parseAction (s : String) : PAct :=
     | 'd' => match unhex rest with | some b => .act (.deliver b) | none => .bad
     | 's' => match unhex rest with | some b => .change b | none => .bad
     | 'Z' => if rest.isEmpty then .noIdle else .bad
+    -- `W<ms>`: wall-clock time passes; the (paused) tokio clock, the only one the model has, does not move
+    | 'W' => match rest.toNat? with | some _ => .act (.advance 0) | none => .bad
     | 'q' =>
       match rest.splitOn ":" with
       | [rid, spec] =>
@@ -511,10 +513,10 @@ def handle (toks : List String) (impl : String) : Verdict :=
       else if on "C18" && (match f.connect with | some "badpw" => f.writes != password.getD [] | _ => false) then "fail:C18-wrote-after-rejected-password"
       else if on "C13" && emptyTypedBad.isSome then s!"fail:C13-empty-typed-list-did-not-yield-an-empty-result-{emptyTypedBad.getD 0}"
       else if on "C01" && inventedReply.isSome then s!"fail:C01-reply-the-server-never-sent-{inventedReply.getD 0}"
-      else match checkResults with
-      | some e =>
-        if (e.startsWith "fail:C01" && on "C01") || (e.startsWith "fail:C17" && on "C17") ||
-           (e.startsWith "fail:C13" && on "C13") || e.startsWith "fail:result" then e else "ok"
+      else match checkResults.filter (fun e =>
+          (e.startsWith "fail:C01" && on "C01") || (e.startsWith "fail:C17" && on "C17") ||
+          (e.startsWith "fail:C13" && on "C13") || e.startsWith "fail:result") with
+      | some e => e
       | none =>
         if on "C01" && honest && !fifoOk then "fail:C01-requests-out-of-order"
         else if on "C13" && honest && connectedOk && !f.dropMain && typedPending then "fail:C13-typed-list-never-answered"
